@@ -599,3 +599,95 @@ func H_C15_frame() {
 		vCover("C15 frame: accepted")
 	}
 }
+
+// ---------------------------------------------------------------------------------------------
+// C02 (sender side) / C01 (sender byte path): the real SendManifestMultiStream runs from its entry
+// (goroutines as symbolic threads) against a scripted receiver: the control stream already holds the
+// receiver's acknowledgements - FileDone ok, FileDone failed, or none at all (the peer went away) - and
+// the caller's context may be cancelled at any observation. Asserted: a nil error implies that the file
+// was acknowledged as ok; and what was put on the data stream is exactly the file, chunk by chunk.
+
+type vSendConn struct {
+	streams []*vMemStream
+}
+
+func (c *vSendConn) OpenStream(ctx context.Context) (Stream, error) {
+	s := &vMemStream{duplex: true}
+	if len(c.streams) == 0 {
+		s.buf = vSenderAcks
+	}
+	c.streams = append(c.streams, s)
+	return s, nil
+}
+func (c *vSendConn) AcceptStream(ctx context.Context) (Stream, error) {
+	return nil, errors.New("scripted conn: no incoming streams")
+}
+func (c *vSendConn) RemoteAddr() net.Addr { return nil }
+func (c *vSendConn) Close() error         { return nil }
+
+var vSenderAcks []byte
+
+func H_C02_sender()      { vC02Sender([]int{0, 5}) }
+func H_C02_sender_deep() { vC02Sender([]int{0, 1, 4, 5, 8}) }
+
+func vC02Sender(sizes []int) {
+	size := sizes[vChoice("sizeIdx", len(sizes))]
+	src := vBytes("src", size)
+	dir := vTempDir()
+	vTempFile("src/f", src)
+	item := manifest.FileItem{RelPath: "f", Size: int64(size), ID: "id"}
+	m := manifest.Manifest{Root: "src", Items: []manifest.FileItem{item}, TotalBytes: int64(size), FileCount: 1}
+	key := fileKeyForItem(item)
+	ack := vChoice("ack", 3)
+	vTag([]string{"ack=ok", "ack=failed", "ack=none"}[ack])
+	acks := &vMemStream{}
+	switch ack {
+	case 0:
+		_ = writeFileDone(acks, FileDone{StreamID: key, OK: true})
+	case 1:
+		_ = writeFileDone(acks, FileDone{StreamID: key, OK: false, ErrMsg: "x"})
+	}
+	vSenderAcks = acks.buf
+	conn := &vSendConn{}
+	cancellable := vBool("callerMayCancel")
+	if cancellable {
+		vTag("cancel")
+	}
+	err := SendManifestMultiStream(vContext("ctx", cancellable), conn, dir+"/src", m, Options{ChunkSize: 4, ParallelFiles: 1})
+	if err != nil {
+		vCover("C02 sender: reports failure")
+		return
+	}
+	vCover("C02 sender: reports success")
+	vAssert(ack == 0, "the sender reports success only if the receiver confirmed the file")
+	// the byte path: header + DataStreams + FileBegin + FileEnd + End on the control stream, the file on the data stream
+	vAssert(len(conn.streams) == 2, "one control and one data stream were opened")
+	data := conn.streams[1].out
+	total := (size + 3) / 4
+	pos := 0
+	seen := make([]bool, total+1)
+	for pos < len(data) {
+		vAssert(pos+dataChunkHeaderLen <= len(data), "the data stream holds whole frames")
+		k := binary.BigEndian.Uint64(data[pos : pos+8])
+		idx := int(binary.BigEndian.Uint32(data[pos+8 : pos+12]))
+		ln := int(binary.BigEndian.Uint32(data[pos+12 : pos+16]))
+		crc := binary.BigEndian.Uint32(data[pos+16 : pos+20])
+		vAssert(k == key, "a frame carries the key of its file")
+		vAssert(idx < total, "a frame's index is below the chunk count")
+		want := 4
+		if idx == total-1 {
+			want = size - 4*(total-1)
+		}
+		vAssert(ln == want, "a frame has the length the geometry defines")
+		vAssert(pos+dataChunkHeaderLen+ln <= len(data), "a frame's payload is complete")
+		payload := data[pos+dataChunkHeaderLen : pos+dataChunkHeaderLen+ln]
+		vAssert(vBytesEq(payload, src[idx*4:idx*4+ln]), "a frame's payload is the file's bytes at index x chunkSize")
+		vAssert(crc == crc32.Checksum(payload, crc32cTable), "a frame's CRC is the CRC of its payload")
+		vAssert(!seen[idx], "every chunk is sent once")
+		seen[idx] = true
+		pos += dataChunkHeaderLen + ln
+	}
+	for i := 0; i < total; i++ {
+		vAssert(seen[i], "every chunk of the file is sent")
+	}
+}
